@@ -54,6 +54,31 @@ pub proof fn lemma_wf_record_member(mem: MemMap, mco: McoMap, own: OwnMap, inf0:
         assert(inf_has(inf0, x.file_id, MemberOrOwner::Owner(o2)));
     }
 }
+/// recording Member(id) under the id's OWN file keeps the invariant (whether or not `members` holds the id)
+pub proof fn lemma_wf_record_member_only(mem: MemMap, mco: McoMap, own: OwnMap, inf0: InfMoMap, inf1: InfMoMap, id: LuaMemberId)
+    requires member_wf(mem, mco, own, inf0), inf_added(inf0, inf1, id.file_id, MemberOrOwner::Member(id)),
+    ensures member_wf(mem, mco, own, inf1), inf_has(inf1, id.file_id, MemberOrOwner::Member(id)),
+        forall|g: FileId, x: MemberOrOwner| inf_has(inf0, g, x) ==> inf_has(inf1, g, x),
+{
+    let f = id.file_id;
+    assert forall|g: FileId, x: MemberOrOwner| inf_has(inf0, g, x) implies inf_has(inf1, g, x) by {
+        if g != f { assert(inf1.contains_key(g) == inf0.contains_key(g)); }
+    }
+    assert forall|x: LuaMemberId| #[trigger] mem.contains_key(x) implies inf1.contains_key(x.file_id) && inf1[x.file_id]@.contains(MemberOrOwner::Member(x)) by {
+        assert(inf_has(inf0, x.file_id, MemberOrOwner::Member(x)));
+    }
+    assert forall|x: LuaMemberId| #[trigger] mco.contains_key(x) implies inf1.contains_key(x.file_id) && inf1[x.file_id]@.contains(MemberOrOwner::Member(x)) by {
+        assert(inf_has(inf0, x.file_id, MemberOrOwner::Member(x)));
+    }
+    assert forall|g: FileId, x: LuaMemberId| inf1.contains_key(g) && #[trigger] inf1[g]@.contains(MemberOrOwner::Member(x)) implies x.file_id == g by {
+        if g != f { assert(inf1.contains_key(g) == inf0.contains_key(g)); }
+        else if x != id { assert(inf_set(inf0, f).contains(MemberOrOwner::Member(x))); }
+    }
+    assert forall|o2: LuaMemberOwner, k: LuaMemberKey, x: LuaMemberId| own.contains_key(o2) && own[o2].members@.contains_key(k) && #[trigger] item_has(own[o2].members@[k], x)
+        implies inf1.contains_key(x.file_id) && inf1[x.file_id]@.contains(MemberOrOwner::Owner(o2)) by {
+        assert(inf_has(inf0, x.file_id, MemberOrOwner::Owner(o2)));
+    }
+}
 /// `member_current_owner.insert(id, o)` keeps the invariant PROVIDED Member(id) is recorded under the id's own file
 /// (true right after `add_member`, and for every member that is in `members`)
 pub proof fn lemma_wf_set_current_owner(mem: MemMap, mco: McoMap, own: OwnMap, inf: InfMoMap, id: LuaMemberId, o: LuaMemberOwner)
